@@ -252,6 +252,10 @@ GateOf(k, S)   == IF k \in MainKinds THEN "IRMAJ" \in S ELSE "CMT" \in S
 C16_Gated(e, realGate) == e.act = "update" /\ e.res = "HALT" /\ realGate => GateOf(kind, e.S)
 \* ... and only when oldest-supported <= v < new
 C16_Window(e)  == e.act = "update" /\ e.res = "HALT" => Prev <= e.v /\ e.v < New
+\* ... and with them it does succeed (`UpdateOK <=> gate /\ window`, DESIGN.md 6 C16); a switch out of the legacy
+\* non-notary mode that is refused because a vote is pending counts as "nothing changes", not as a failure
+C16_Accepts(e, realGate, blocked) ==
+  e.act = "update" /\ (~realGate \/ GateOf(kind, e.S)) /\ Prev <= e.v /\ e.v < New /\ ~blocked => e.res = "HALT"
 \* otherwise nothing changes
 C16_Inert(e, same) == e.act = "update" /\ e.res # "HALT" => same /\ ver' = ver /\ api' = api
 \* a successful upgrade preserves everything observable through the read API and runs the new version
